@@ -169,8 +169,8 @@ Definition is_call (o : L.op) : Prop :=
   match o with L.CallClosure _ _ | L.CallDirect _ _ _ _ => True | _ => False end.
 
 Section W.
-Variable child_out : list (string * string) -> list string -> string.
-Variable child_exit : list (string * string) -> list string -> nat.
+Variable child_out : list (string * string) -> list (string * string) -> list string -> string.
+Variable child_exit : list (string * string) -> list (string * string) -> list string -> nat.
 Variable h0 : L.heap.
 Variable cls0 : list L.closure.
 Hypothesis closures_in_heap : LF.cls_ok h0 cls0.
@@ -237,8 +237,8 @@ Definition S_closure (child : list string -> list string -> S.child_result) (h0 
                (L.contents h0 (L.cl_baked cl) ++ L.contents h0 extra).
 
 Section R.
-Variable child_out : list (string * string) -> list string -> string.
-Variable child_exit : list (string * string) -> list string -> nat.
+Variable child_out : list (string * string) -> list (string * string) -> list string -> string.
+Variable child_exit : list (string * string) -> list (string * string) -> list string -> nat.
 Variable h0 : L.heap.
 Variable cls0 : list L.closure.
 Hypothesis closures_in_heap : LF.cls_ok h0 cls0.
@@ -335,9 +335,9 @@ Proof. intros. eapply SF.one_newline_removed_unique; [apply L_trim_spec|apply SF
    of C15's one. *)
 Definition env_blind (child : list string -> list string -> S.child_result) : Prop :=
   forall a e e', child a e = child a e'.
-Definition L_out (child : list string -> list string -> S.child_result) (_ : list (string * string)) (argv : list string) : string :=
+Definition L_out (child : list string -> list string -> S.child_result) (_ _ : list (string * string)) (argv : list string) : string :=
   S.child_out (child argv []).
-Definition L_exit (child : list string -> list string -> S.child_result) (_ : list (string * string)) (argv : list string) : nat :=
+Definition L_exit (child : list string -> list string -> S.child_result) (_ _ : list (string * string)) (argv : list string) : nat :=
   Z.to_nat (S.sh_ExitStatus (snd (SF.outcome (child argv [])))).
 
 (* C15's record, seen through L's observation *)
@@ -354,8 +354,8 @@ Definition obs_of_call (f : S.entry) (x : S.call) : L.obs :=
 Lemma call_facts : forall child e f envm cmd argsl, env_blind child ->
   let x := S.call_entry (snapshot e) child f envm cmd argsl in
   let r := child (S.k_argv x) [] in
-  L_out child e (S.k_argv x) = S.child_out r /\
-  L_exit child e (S.k_argv x) = Z.to_nat (S.sh_ExitStatus (S.k_err x)) /\
+  (forall m, L_out child e m (S.k_argv x) = S.child_out r) /\
+  (forall m, L_exit child e m (S.k_argv x) = Z.to_nat (S.sh_ExitStatus (S.k_err x))) /\
   S.k_text x = (if SF.is_output f then S.trim_nl (S.child_out r) else EmptyString) /\
   S.k_os_stdout x = String.append (S.reaches S.WOsStdout (SF.entry_so (snapshot e) f) (S.child_out r))
                                   (S.reaches S.WOsStdout (SF.entry_se f) (S.child_err r)) /\
@@ -373,7 +373,7 @@ Qed.
 
 Lemma finish_direct_agree : forall child e f emap cmd argsl, env_blind child ->
   let x := S.call_entry (snapshot e) child (to_entry f) emap cmd argsl in
-  L.finish_direct (L_out child) (L_exit child) f e (S.k_argv x) = obs_of_call (to_entry f) x.
+  L.finish_direct (L_out child) (L_exit child) f emap e (S.k_argv x) = obs_of_call (to_entry f) x.
 Proof.
   intros child e f emap cmd argsl Hb x.
   destruct (call_facts child e (to_entry f) emap cmd argsl Hb) as (Ho & Hx & Ht & Hs & Hbo). fold x in Ho, Hx, Ht, Hs, Hbo.
